@@ -24,7 +24,10 @@ def run(tier, seed):
             sname, strata = r.choice(strats)
             nn = len(strata)
             w = [r.randint(1, 4) for _ in strata]
-            props = {s: str(gen.Fraction(x, sum(w))) for s, x in zip(strata, w)}
+            pit_ = [(s, str(gen.Fraction(x, sum(w)))) for s, x in zip(strata, w)]
+            if r.random() < 0.5:
+                r.shuffle(pit_)          # proportions written in another order than the strata
+            props = dict(pit_)
             others = [(a, b) for a, b in strats if a != sname]
             filt = {}
             if others and r.random() < 0.6:
